@@ -18,6 +18,31 @@ pub fn all_whitespace() -> Vec<String> {
     (0u32..0x11_0000).filter_map(char::from_u32).filter(|c| c.is_whitespace()).map(|c| c.to_string()).collect()
 }
 
+/// Gaps that are large in one dimension.
+pub fn big_gaps() -> &'static [&'static str] {
+    static G: std::sync::OnceLock<Vec<&'static str>> = std::sync::OnceLock::new();
+    G.get_or_init(|| {
+        let mut v: Vec<String> = vec![];
+        for n in [254usize, 255, 256, 257, 65_534, 65_535, 65_536, 65_537] {
+            v.push(" ".repeat(n));
+        }
+        for n in [255usize, 256, 300, 65_536] {
+            v.push("\n".repeat(n));
+            v.push("\r\n".repeat(n / 2));
+        }
+        // one long comment; many short comments; many empty comments
+        for n in [252usize, 253, 254, 300, 65_533, 70_000] {
+            v.push(format!("//{}\n", "c".repeat(n)));
+        }
+        v.push(format!("//{}\n", "é€".repeat(200)));
+        v.push("// c\n".repeat(300));
+        v.push("//\n".repeat(300));
+        v.push("// c\r\n".repeat(14_000));
+        v.push("\t\u{2003} ".repeat(100));
+        v.into_iter().map(|s| &*Box::leak(s.into_boxed_str())).collect()
+    })
+}
+
 #[derive(Clone, Debug, PartialEq, Eq, PartialOrd, Ord)]
 enum Desc {
     Start(usize),
@@ -225,6 +250,16 @@ pub fn explore_source(name: &str, original: &str, pairs: bool, acc: &mut Acc) {
                 continue;
             }
             try_layout(layout(&texts, &|j| if j == i { *g } else if j == 0 || j == n { "" } else { " " }, ""), "1-gap deviations with each Unicode whitespace character", acc);
+        }
+    }
+    // large gaps, one at a time: sizes around 2^8 and 2^16, many lines, long comments (positions, counters and
+    // buffers that only matter at scale); small sources get every gap, large ones a rotating subset
+    for i in 0..=n {
+        for (k, g) in big_gaps().iter().enumerate() {
+            if n > 40 && (i + k) % 5 != 0 {
+                continue;
+            }
+            try_layout(layout(&texts, &|j| if j == i { *g } else if j == 0 || j == n { "" } else { " " }, ""), "1-gap deviations with a large gap (255..257 / 65535..65537 bytes, hundreds of lines or comments)", acc);
         }
     }
     if (pairs && n <= 60) || n <= 36 {
